@@ -81,12 +81,12 @@ func HistCheckFor(prop string) (HistCheck, bool) {
 		return hc, false
 	}
 	if longEvery == 150 {
-		// thorough tier: about one history in 3000 starts from a chain around the production
+		// thorough tier: about one history in 4000 starts from a chain around the production
 		// prune depth / automatic-clean interval of 10000 headers (each costs minutes of CPU)
 		switch prop {
 		case "C01", "C09", "C10", "C11", "C12":
-			g.BaseLens = withEpochs(g.BaseLens, 3000, []int{9996, 10003, 11000, 20001})
-			hc.Rule += "; thorough tier: ~1 history in 3000 starts from a 9996/10003/11000/20001-header chain (production prune depth, automatic clean every 10000 heights)"
+			g.BaseLens = withEpochs(g.BaseLens, 4000, []int{9996, 10003, 11000})
+			hc.Rule += "; thorough tier: ~1 history in 4000 starts from a 9996/10003/11000-header chain (production prune depth, automatic clean every 10000 heights)"
 		}
 	}
 	hc.Gen = g
